@@ -579,6 +579,26 @@ fn is_simple_default(e: &Expr) -> bool {
 }
 
 impl<'a, 'ast> Visit<'ast> for R4Find<'a> {
+    fn visit_macro(&mut self, m: &'ast syn::Macro) {
+        // conditions of assert!/debug_assert! are ordinary expressions: token spans inside the macro
+        // are real source spans, so they can be rewritten like any other expression
+        let n = mac_name(m);
+        if n == "debug_assert" || n == "assert" {
+            if let Ok(args) = m.parse_body_with(syn::punctuated::Punctuated::<Expr, syn::Token![,]>::parse_terminated) {
+                for a in args.iter() {
+                    // the parsed expressions do not outlive this call; collect the edit only
+                    let mut inner = R4Find { text: self.text, result_methods: self.result_methods, found: None, err: None };
+                    inner.visit_expr(a);
+                    if self.found.is_none() {
+                        self.found = inner.found;
+                    }
+                    if self.err.is_none() {
+                        self.err = inner.err;
+                    }
+                }
+            }
+        }
+    }
     fn visit_expr_method_call(&mut self, mc: &'ast syn::ExprMethodCall) {
         // innermost first
         visit::visit_expr_method_call(self, mc);
@@ -753,6 +773,7 @@ pub struct FnSpec {
     pub nopub: bool,
     pub r4result: HashSet<String>,
     pub attrs: Vec<String>,
+    pub tail: Option<String>,
 }
 
 fn check_ghost_only(what: &str, s: &str) -> Result<(), String> {
@@ -979,6 +1000,7 @@ impl<'a> Ctx<'a> {
         let text2 = r4_pass(text1, is_method, &fs.r4result, &mut self.cnt)?;
         // pass 3 (R7)
         let (sig_ident, output, block, sig_range, fn_start): (Range<usize>, Option<Range<usize>>, Range<usize>, Range<usize>, usize);
+        let tail_range: Option<Range<usize>>;
         let mut an = Anchors::default();
         if is_method {
             let ast: syn::ImplItemFn = syn::parse_str(&text2).map_err(|e| format!("reparse (splice): {e}"))?;
@@ -990,6 +1012,7 @@ impl<'a> Ctx<'a> {
             block = br(&ast.block);
             sig_range = br(&ast.sig);
             fn_start = br(&ast).start;
+            tail_range = match ast.block.stmts.last() { Some(Stmt::Expr(e, None)) => Some(br(e)), _ => None };
             an.visit_block(&ast.block);
         } else {
             let ast: syn::ItemFn = syn::parse_str(&text2).map_err(|e| format!("reparse (splice): {e}"))?;
@@ -1001,6 +1024,7 @@ impl<'a> Ctx<'a> {
             block = br(&*ast.block);
             sig_range = br(&ast.sig);
             fn_start = br(&ast).start;
+            tail_range = match ast.block.stmts.last() { Some(Stmt::Expr(e, None)) => Some(br(e)), _ => None };
             an.visit_block(&ast.block);
         }
         let mut edits: Vec<Edit> = vec![];
@@ -1061,6 +1085,15 @@ impl<'a> Ctx<'a> {
                     edits.push(ins(*b, format!("\n        {}", s.trim_end())));
                 }
             }
+        }
+        if let Some(tail) = &fs.tail {
+            // R9: bind the tail expression so that ghost code can follow the last call:
+            //     `E`  ->  `let r__ = E; <ghost>; r__`
+            check_ghost_only(&fs.path, tail)?;
+            let Some(tr) = tail_range.clone() else { return Err(format!("lost anchor: {} has no tail expression", fs.path)) };
+            self.cnt.bump("R9_tail_bind");
+            edits.push(ins(tr.start, "let r__ = ".into()));
+            edits.push(ins(tr.end, format!(";\n        {}\n        r__", tail.trim_end())));
         }
         // stable order for same-position insertions: keep push order (sort is stable)
         let out = apply_edits(&text2, edits);
@@ -1212,6 +1245,7 @@ impl<'a> Gen<'a> {
                             Loop(usize),
                             Closure(usize),
                             Anchor(usize),
+                            Tail,
                         }
                         let mut cur = Cur::None;
                         let mut ended = false;
@@ -1227,6 +1261,10 @@ impl<'a> Gen<'a> {
                                     }
                                     "ret" => fs.ret = Some(ps.get(1).ok_or("//@ret name")?.to_string()),
                                     "spec" => cur = Cur::Spec,
+                                    "tail" => {
+                                        fs.tail = Some(String::new());
+                                        cur = Cur::Tail;
+                                    }
                                     "attr" => fs.attrs.push(d.trim_start().strip_prefix("attr").unwrap_or("").trim().to_string()),
                                     "r4result" => {
                                         for m in &ps[1..] {
@@ -1265,6 +1303,7 @@ impl<'a> Gen<'a> {
                                     Cur::Loop(k) => Some(&mut fs.loops[k].1),
                                     Cur::Closure(k) => Some(&mut fs.closures[k].2),
                                     Cur::Anchor(k) => Some(&mut fs.anchors[k].3),
+                                    Cur::Tail => fs.tail.as_mut(),
                                 };
                                 if let Some(tg) = target {
                                     tg.push_str(l);
